@@ -44,7 +44,6 @@ from isla.helpers import (
     is_float,
     Maybe,
     get_isla_resource_file_content,
-    eassert,
 )
 from isla.isla_predicates import (
     STANDARD_STRUCTURAL_PREDICATES,
@@ -955,11 +954,14 @@ def get_input_string(
     def graph():
         return gg.GrammarGraph.from_grammar(grammar)
 
-    return (
-        safe(lambda: json.loads(inp))()
-        .map(DerivationTree.from_parse_tree)
-        .map(lambda tree: eassert(tree, graph().tree_is_valid(tree)))
-        .lash(lambda _: safe(lambda: solver().parse(inp, skip_check=True))())
+    def tree_from_json() -> DerivationTree:
+        tree = DerivationTree.from_parse_tree(json.loads(inp))
+        if not graph().tree_is_valid(tree):
+            raise SyntaxError("The given JSON input is not a derivation tree of the grammar")
+        return tree
+
+    return safe(tree_from_json)().lash(
+        lambda _: safe(lambda: solver().parse(inp, skip_check=True))()
     )
 
 
